@@ -119,6 +119,7 @@ package pcs
 
 //@ func TCBInfo.validate
 //@   props C18
+//@   modifies nothing
 //@   safety nil
 //@   requires ti != nil && policy != nil
 //@   ensures err == nil ==> (teeType == TeeTypeSGX && ti.ID == tcbInfoSGX) || (teeType == TeeTypeTDX && ti.ID == tcbInfoTDX)
@@ -129,6 +130,7 @@ package pcs
 
 //@ func QEIdentity.validate
 //@   props C18
+//@   modifies nothing
 //@   safety nil
 //@   requires qe != nil && policy != nil
 //@   ensures err == nil ==> (teeType == TeeTypeSGX && qe.ID == qeIDSgx) || (teeType == TeeTypeTDX && qe.ID == qeIDTdx)
@@ -137,6 +139,7 @@ package pcs
 
 //@ func TCBInfo.validateFMSPC
 //@   props C18
+//@   modifies nothing
 //@   safety nil
 //@   requires ti != nil
 //@   ensures-local err == nil ==> bytesId(fmspc) == bytesId(expectedFmspc)
@@ -160,6 +163,7 @@ package pcs
 
 //@ func SignedTCBInfo.open
 //@   props C18
+//@   modifies GSigTrue
 //@   safety nil
 //@   requires st != nil && policy != nil
 //@   ensures err != nil ==> result0 == nil
@@ -169,6 +173,7 @@ package pcs
 
 //@ func SignedQEIdentity.open
 //@   props C18
+//@   modifies GSigTrue
 //@   safety nil
 //@   requires sq != nil && policy != nil
 //@   ensures err != nil ==> result0 == nil
